@@ -453,6 +453,21 @@ func (fr *Frame) enterLoop(lr *loopRun, stIn *State, reach Term) *State {
 			fr.obligeParts(fmt.Sprintf("loop%d.inv%d.entry", ord, j+1), "loop-inv-entry", reach, env, c)
 		}
 	}
+	if lr.spec != nil && lr.spec.Cut && fr.top {
+		// "loop k cutcontext": what the body assumed so far is forgotten; the
+		// invariants (and the frame facts stated below) carry what is needed
+		vc.sc.Forget(vc.bodyStart)
+		vc.sc.Assume(app(SBool, ">=", stIn.Alloc, vc.entryState.Alloc), "allocation counter only grows")
+	}
+	if lr.spec != nil && fr.top {
+		for _, u := range lr.spec.Uses {
+			lf := fr.cf.Funcs["lemma:"+u]
+			if lf == nil || len(lf.Params) == 0 {
+				panic(specErr{fmt.Sprintf("loop %d uses %s: no such parameterised lemma", ord, u)})
+			}
+			vc.assumeParamLemmaAt(u, lf, false)
+		}
+	}
 	lr.headPos = vc.sc.Pos()
 	st := stIn.clone()
 	// havoc
@@ -1061,7 +1076,7 @@ func (fr *Frame) binop(x *ssa.BinOp, st *State, reach Term) {
 		default:
 			r = enc.mul(ta, tb)
 		}
-		if fr.wraps(x.Op, x.Type()) {
+		if fr.wrapsAt(x) {
 			w, sg, _ := intInfo(x.Type())
 			m := intLit(new(bigInt).Lsh(bigOne, uint(w)))
 			if sg {
@@ -1122,6 +1137,48 @@ func (fr *Frame) binop(x *ssa.BinOp, st *State, reach Term) {
 				}
 			}
 		}
+		if enc.Mode == ModeInt {
+			// one operand syntactically narrower than 2^k (k <= 8), the other wide:
+			// only the low k bits of the wide one take part
+			hx, _ := bitsOf(x.X, 0)
+			hy, _ := bitsOf(x.Y, 0)
+			_, xc := x.X.(*ssa.Const)
+			_, yc := x.Y.(*ssa.Const)
+			if _, sg, _ := intInfo(xt); !sg && !xc && !yc && x.Op != token.AND_NOT {
+				wide, narrow, k := ta, tb, hy
+				if hx < hy {
+					wide, narrow, k = tb, ta, hx
+				}
+				if k >= 1 && k <= 8 && (hx > 16 || hy > 16) {
+					p := intLit(new(bigInt).Lsh(bigOne, uint(k)))
+					low := vc.sc.Def("t", app(SInt, "mod", wide, p))
+					bit := func(v Term, i int) Term {
+						q := intLit(new(bigInt).Lsh(bigOne, uint(i)))
+						return mkEq(app(SInt, "mod", app(SInt, "div", v, q), intLit64(2)), intLit64(1))
+					}
+					terms := []Term{intLit64(0)}
+					for i := 0; i < k; i++ {
+						var c Term
+						switch x.Op {
+						case token.AND:
+							c = mkAnd(bit(low, i), bit(narrow, i))
+						case token.OR:
+							c = mkOr(bit(low, i), bit(narrow, i))
+						default:
+							c = mkNot(mkEq(bit(low, i), bit(narrow, i)))
+						}
+						terms = append(terms, mkIte(c, intLit(new(bigInt).Lsh(bigOne, uint(i))), intLit64(0)))
+					}
+					lowRes := app(SInt, "+", terms...)
+					if x.Op == token.AND {
+						fr.vals[x] = scalar(x.Type(), vc.sc.Def("t", lowRes))
+					} else {
+						fr.vals[x] = scalar(x.Type(), vc.sc.Def("t", app(SInt, "+", app(SInt, "-", wide, low), lowRes)))
+					}
+					return
+				}
+			}
+		}
 		fr.vals[x] = scalar(x.Type(), vc.sc.Def("t", enc.bitop(x.Op, ta, tb, xt)))
 	case token.SHL, token.SHR:
 		_, ysigned, _ := intInfo(x.Y.Type())
@@ -1129,7 +1186,7 @@ func (fr *Frame) binop(x *ssa.BinOp, st *State, reach Term) {
 			fr.oblige("shift", reach, enc.le(enc.zeroTerm(tb.Sort), tb, true), "negative shift count")
 		}
 		r := vc.sc.Def("t", enc.shift(x.Op, ta, tb, signed, ysigned))
-		if x.Op == token.SHL && fr.wraps(x.Op, x.Type()) {
+		if x.Op == token.SHL && fr.wrapsAt(x) {
 			w, sg, _ := intInfo(x.Type())
 			m := intLit(new(bigInt).Lsh(bigOne, uint(w)))
 			if sg {
@@ -1644,6 +1701,33 @@ func (fr *Frame) storeTo(lv *LV, v *FV, st *State) {
 	fr.vc.storeFlat(st, lv, v)
 }
 
+
+// wrapsAt: wraps, or "wraps <op> into <local>" when the result of x is stored
+// directly into that local (x += e, x++, x = a - b).
+func (fr *Frame) wrapsAt(x *ssa.BinOp) bool {
+	if fr.wraps(x.Op, x.Type()) {
+		return true
+	}
+	if fr.vc.enc.Mode != ModeInt || fr.fc == nil || fr.fc.WrapsInto == nil {
+		return false
+	}
+	if _, _, ok := intInfo(x.Type()); !ok {
+		return false
+	}
+	name := map[token.Token]string{token.SHL: "shl", token.ADD: "add", token.SUB: "sub", token.MUL: "mul"}[x.Op]
+	set := fr.fc.WrapsInto[name]
+	if set == nil || x.Referrers() == nil {
+		return false
+	}
+	for _, r := range *x.Referrers() {
+		if st, ok := r.(*ssa.Store); ok && st.Val == x {
+			if a, ok := st.Addr.(*ssa.Alloc); ok && set[a.Comment] {
+				return true
+			}
+		}
+	}
+	return false
+}
 
 // wraps: in int mode, does this operator have declared modular semantics here?
 func (fr *Frame) wraps(op token.Token, t types.Type) bool {
